@@ -123,6 +123,47 @@ CHECKS = {
         note=LEVEL_NOTE_COMMON + "Axioms: none. States / actions are pooled fn items of the harness with observable firing; HashMap iteration order is existentially quantified.",
         technique="Coq proof (map laws, induction over the iteration order, checker soundness) + proved checker applied to every observed operation",
         design="§7 C03"),
+    "C04": dict(
+        text="Theorems (Coq, single-producer pipeline model: ANY ring size, number of stages / handlers, batch sizes, every interleaving = every reachable state of the small-step model): "
+             "a handler handles the successor of the last sequence it returned from (in order, exactly once, no gaps), only sequences that are completely written and covered by the producer cursor, and "
+             "what it sees is intact (slot not re-used, all earlier stages done with it, no later stage touched it); sequence 0 is never delivered (known finding D7). The per-thread programs of the "
+             "real code are tied to the model by TRACE VALIDATION: the extracted acceptors (Disruptor/Threads.v) must accept every logged trace operation for operation (kind, location, ordering, "
+             "operand, control flow). Monitors on every explored schedule check the property on the implementation itself; multi-producer pipelines are covered by the monitors (stranding = known finding D8).",
+        note=LEVEL_NOTE_COMMON + "Axioms: none. " + "the deterministic scheduler hooks (cfg deepcausality_rs_deep_causality_verif) make every atomic / mutex / condvar operation and slot access of the real code a scheduling point and log it with its real Ordering; Reading several cursors is abstracted to one step returning any value not above the current values (sound by monotonicity). "
+             "Multi-producer delivery is explored, not proved; C11 stale reads are not explored.",
+        technique="Coq proof (inductive invariant over a small-step interleaving model) + trace validation of the hooked implementation under a deterministic scheduler + trace monitors",
+        design="§7.R C04"),
+    "C05": dict(
+        text="Theorems (Coq, same model): the producer writes sequence q only when EVERY handler of EVERY stage has returned from q-N (no overwrite before consumption); a claim ending at e needs a "
+             "gating value m with e <= m+N below every last-stage cursor (a producer a full ring ahead blocks); the cursor-chain invariant is inductive. The happens-before half of the property is "
+             "decided on every explored schedule by a vector-clock analysis driven by the Ordering arguments the code REALLY passed (release sequences through RMWs, mutex edges), and the trace "
+             "validation pins those orderings (Release on every cursor store, Acquire on every cursor load). Same-stage mutable handlers race: known finding D9.",
+        note=LEVEL_NOTE_COMMON + "Axioms: none. The happens-before statement is NOT a Coq theorem (value-level ordering is); it is checked per execution with vector clocks. C11 stale reads are not explored.",
+        technique="Coq proof (value-level ordering invariant) + vector-clock happens-before race detection on scheduler-controlled executions + trace validation of orderings",
+        design="§7.R C05"),
+    "C06": dict(
+        text="PARTIAL. Theorems (Coq, blocking wait / signal protocol, any number of waiters and signalling threads, any interleaving, spurious wake-ups): a waiter that parks (or has decided to "
+             "park) while its condition holds always has a notification still coming; once all signalling threads are done no waiter with a true condition is parked (no lost wake-up); the guard "
+             "is exclusive. Termination of write / drain / join is NOT proved: it is explored on every run - the scheduler reports all-finished vs deadlock vs budget exhausted vs panic - for spin "
+             "and blocking strategies, zero-event pipelines, tiny rings. Found and fixed: drain of an unused single producer (D5), stale-watermark underflow (D10). Multi-producer stall: known finding D8.",
+        note=LEVEL_NOTE_COMMON + "Axioms: none. " + "the deterministic scheduler hooks (cfg deepcausality_rs_deep_causality_verif) make every atomic / mutex / condvar operation and slot access of the real code a scheduling point and log it with its real Ordering; Fair termination is exploration-level only.",
+        technique="Coq proof (no-lost-wake-up invariant of the check-under-mutex / signal-under-mutex protocol) + scheduler-controlled exploration of termination",
+        design="§7.R C06"),
+    "C13": dict(
+        text="Theorems (Coq, same pipeline model): a stage-(k+1) handler handles sequence i only after EVERY stage-k handler returned from i; it sees the modifications of all earlier stages and "
+             "none of later ones while the slot is not re-used; gating the producer on the last stage only suffices because the last stage is the slowest (no handler of any stage is lapped). "
+             "Trace validation + monitors (stage order, overwrite) on every explored schedule.",
+        note=LEVEL_NOTE_COMMON + "Axioms: none. " + "the deterministic scheduler hooks (cfg deepcausality_rs_deep_causality_verif) make every atomic / mutex / condvar operation and slot access of the real code a scheduling point and log it with its real Ordering; ",
+        technique="Coq proof (cursor chain along the stages, inductive invariant) + trace validation + trace monitors under a deterministic scheduler",
+        design="§7.R C13"),
+    "C14": dict(
+        text="Theorems (Coq): for ANY number of threads and ANY interleaving of loads and compare-and-swaps on the high watermark, the ranges returned by successful claims tile the sequence space in "
+             "claim order, are pairwise disjoint, cover it without gaps and have the requested lengths; a cursor that is only ever swapped upwards never decreases; single producer: the cursor never "
+             "covers an unwritten sequence and equals the highest claimed sequence when the producer is idle. Monitors on every explored schedule (incl. out-of-order publishes on rings of 2..128 slots): "
+             "claims, cursor monotone, never past an unwritten sequence, final cursor = highest claimed (violated by the multi producer with >= 2 publishers: known finding D8).",
+        note=LEVEL_NOTE_COMMON + "Axioms: none. " + "the deterministic scheduler hooks (cfg deepcausality_rs_deep_causality_verif) make every atomic / mutex / condvar operation and slot access of the real code a scheduling point and log it with its real Ordering; The multi-producer publish path (bitmap scan, low watermark) is explored, not proved.",
+        technique="Coq proof (atomicity of a single location: CAS histories) + trace monitors under a deterministic scheduler",
+        design="§7.R C14"),
 }
 
 ALL = [f"C{n:02d}" for n in range(1, 20)]
@@ -170,7 +211,7 @@ def main():
     print("claimed:", [c["property_id"] for c in checks])
 
 
-HOOK_COMMITS = []
+HOOK_COMMITS = ["493e421", "849dd17"]
 NA = {}
 
 if __name__ == "__main__":
